@@ -21,29 +21,37 @@ func TestC30(t *testing.T) {
 		op     c10.Op
 		fault  *c10.FaultSpec
 		before int // live workloads to create first
+		strict bool // the engine refuses to remove a running container without force (as docker does)
 	}
 	ok := cw.LambdaScript{ExitCode: 7}
 	corpus := []scen{
-		{"plain-exit7", c10.Op{Kind: "lambda", Pod: 0, Count: 2, CPU: 50, Mem: 100, Lines: 2, Script: ok}, nil, 1},
-		{"wal-log-lambda-fails", c10.Op{Kind: "lambda", Pod: 0, Count: 1, CPU: 50, Mem: 100, Lines: 1, Script: ok}, &c10.FaultSpec{Method: "Log", Target: "create-lambda", Ord: 0}, 0},
-		{"logs-fail", c10.Op{Kind: "lambda", Pod: 1, Count: 2, CPU: 50, Mem: 100, Lines: 1, Script: cw.LambdaScript{LogsErr: true}}, nil, 0},
-		{"wait-fails", c10.Op{Kind: "lambda", Pod: 0, Count: 1, CPU: 50, Mem: 100, Lines: 1, Script: cw.LambdaScript{WaitErr: true}}, nil, 0},
-		{"stdin-attach-fails", c10.Op{Kind: "lambda", Pod: 0, Count: 1, CPU: 50, Mem: 100, Stdin: true, Script: cw.LambdaScript{AttachErr: true}}, nil, 0},
-		{"stdin-count-2-rejected", c10.Op{Kind: "lambda", Pod: 0, Count: 2, CPU: 50, Mem: 100, Stdin: true, Script: ok}, nil, 0},
-		{"create-fails-start", c10.Op{Kind: "lambda", Pod: 0, Count: 3, CPU: 50, Mem: 100, Lines: 1, Script: ok}, &c10.FaultSpec{Method: "VirtualizationStart", Target: "*", Ord: 1}, 0},
-		{"remove-engine-fails", c10.Op{Kind: "lambda", Pod: 0, Count: 1, CPU: 50, Mem: 100, Lines: 1, Script: ok}, &c10.FaultSpec{Method: "VirtualizationRemove", Target: "*", Ord: 0}, 0},
-		{"alloc-insufficient", c10.Op{Kind: "lambda", Pod: 0, Count: 3, CPU: 50, Mem: 5000, Script: ok}, nil, 0},
-		{"caller-cancels-before-wait", c10.Op{Kind: "lambda", Pod: 0, Count: 1, CPU: 50, Mem: 100, Lines: 2, Script: ok, CancelAt: "VirtualizationWait"}, nil, 1},
-		{"caller-cancels-before-logs", c10.Op{Kind: "lambda", Pod: 1, Count: 1, CPU: 50, Mem: 100, Lines: 1, Script: ok, CancelAt: "VirtualizationLogs"}, nil, 0},
-		{"rpc-plain", c10.Op{Kind: "lambda", Pod: 0, Count: 2, CPU: 50, Mem: 100, Lines: 1, Script: ok, RPC: true}, nil, 0},
-		{"rpc-send-fails-from-first", c10.Op{Kind: "lambda", Pod: 0, Count: 1, CPU: 50, Mem: 100, Lines: 2, Script: ok, RPC: true, RPCSendFailFrom: 1}, nil, 1},
-		{"rpc-send-fails-mid-stream", c10.Op{Kind: "lambda", Pod: 0, Count: 2, CPU: 50, Mem: 100, Lines: 2, Script: ok, RPC: true, RPCSendFailFrom: 3}, nil, 0},
-		{"rpc-stdin-rejected", c10.Op{Kind: "lambda", Pod: 0, Count: 2, CPU: 50, Mem: 100, Stdin: true, Script: ok, RPC: true}, nil, 0},
-		{"wait-call-fails", c10.Op{Kind: "lambda", Pod: 0, Count: 1, CPU: 50, Mem: 100, Lines: 1, Script: ok}, &c10.FaultSpec{Method: "VirtualizationWait", Target: "*", Ord: 0}, 0},
+		{"plain-exit7", c10.Op{Kind: "lambda", Pod: 0, Count: 2, CPU: 50, Mem: 100, Lines: 2, Script: ok}, nil, 1, false},
+		{"wal-log-lambda-fails", c10.Op{Kind: "lambda", Pod: 0, Count: 1, CPU: 50, Mem: 100, Lines: 1, Script: ok}, &c10.FaultSpec{Method: "Log", Target: "create-lambda", Ord: 0}, 0, false},
+		{"logs-fail", c10.Op{Kind: "lambda", Pod: 1, Count: 2, CPU: 50, Mem: 100, Lines: 1, Script: cw.LambdaScript{LogsErr: true}}, nil, 0, false},
+		{"wait-fails", c10.Op{Kind: "lambda", Pod: 0, Count: 1, CPU: 50, Mem: 100, Lines: 1, Script: cw.LambdaScript{WaitErr: true}}, nil, 0, false},
+		{"stdin-attach-fails", c10.Op{Kind: "lambda", Pod: 0, Count: 1, CPU: 50, Mem: 100, Stdin: true, Script: cw.LambdaScript{AttachErr: true}}, nil, 0, false},
+		{"stdin-count-2-rejected", c10.Op{Kind: "lambda", Pod: 0, Count: 2, CPU: 50, Mem: 100, Stdin: true, Script: ok}, nil, 0, false},
+		{"create-fails-start", c10.Op{Kind: "lambda", Pod: 0, Count: 3, CPU: 50, Mem: 100, Lines: 1, Script: ok}, &c10.FaultSpec{Method: "VirtualizationStart", Target: "*", Ord: 1}, 0, false},
+		{"remove-engine-fails", c10.Op{Kind: "lambda", Pod: 0, Count: 1, CPU: 50, Mem: 100, Lines: 1, Script: ok}, &c10.FaultSpec{Method: "VirtualizationRemove", Target: "*", Ord: 0}, 0, false},
+		{"alloc-insufficient", c10.Op{Kind: "lambda", Pod: 0, Count: 3, CPU: 50, Mem: 5000, Script: ok}, nil, 0, false},
+		{"caller-cancels-before-wait", c10.Op{Kind: "lambda", Pod: 0, Count: 1, CPU: 50, Mem: 100, Lines: 2, Script: ok, CancelAt: "VirtualizationWait"}, nil, 1, false},
+		{"caller-cancels-before-logs", c10.Op{Kind: "lambda", Pod: 1, Count: 1, CPU: 50, Mem: 100, Lines: 1, Script: ok, CancelAt: "VirtualizationLogs"}, nil, 0, false},
+		{"rpc-plain", c10.Op{Kind: "lambda", Pod: 0, Count: 2, CPU: 50, Mem: 100, Lines: 1, Script: ok, RPC: true}, nil, 0, false},
+		{"rpc-send-fails-from-first", c10.Op{Kind: "lambda", Pod: 0, Count: 1, CPU: 50, Mem: 100, Lines: 2, Script: ok, RPC: true, RPCSendFailFrom: 1}, nil, 1, false},
+		{"rpc-send-fails-mid-stream", c10.Op{Kind: "lambda", Pod: 0, Count: 2, CPU: 50, Mem: 100, Lines: 2, Script: ok, RPC: true, RPCSendFailFrom: 3}, nil, 0, false},
+		{"rpc-stdin-rejected", c10.Op{Kind: "lambda", Pod: 0, Count: 2, CPU: 50, Mem: 100, Stdin: true, Script: ok, RPC: true}, nil, 0, false},
+		// engine failures with the container still RUNNING, on an engine that refuses unforced removal of a running container:
+		// the clean-up has to remove with force
+		{"strict-logs-fail", c10.Op{Kind: "lambda", Pod: 0, Count: 1, CPU: 50, Mem: 100, Lines: 1, Script: cw.LambdaScript{LogsErr: true}}, nil, 1, true},
+		{"strict-wait-fails", c10.Op{Kind: "lambda", Pod: 1, Count: 2, CPU: 50, Mem: 100, Lines: 1, Script: cw.LambdaScript{WaitErr: true}}, nil, 0, true},
+		{"strict-stdin-attach-fails", c10.Op{Kind: "lambda", Pod: 0, Count: 1, CPU: 50, Mem: 100, Stdin: true, Script: cw.LambdaScript{AttachErr: true}}, nil, 0, true},
+		{"strict-wait-call-fails", c10.Op{Kind: "lambda", Pod: 0, Count: 1, CPU: 50, Mem: 100, Lines: 1, Script: ok}, &c10.FaultSpec{Method: "VirtualizationWait", Target: "*", Ord: 0}, 0, true},
+		{"strict-plain", c10.Op{Kind: "lambda", Pod: 0, Count: 2, CPU: 50, Mem: 100, Lines: 1, Script: ok}, nil, 0, true},
+		{"wait-call-fails", c10.Op{Kind: "lambda", Pod: 0, Count: 1, CPU: 50, Mem: 100, Lines: 1, Script: ok}, &c10.FaultSpec{Method: "VirtualizationWait", Target: "*", Ord: 0}, 0, false},
 	}
 	run := func(s scen, tag string) {
-		d := c10.NewDriver(t, r.Rng, false)
-		h := &c10.History{}
+		d := c10.NewDriver(t, r.Rng, s.strict)
+		h := &c10.History{Strict: s.strict}
 		d.Setup(h, 2, 3, 1000)
 		if s.before > 0 {
 			h.Steps = append(h.Steps, d.Run(c10.Op{Kind: "create", Opi: d.NextOpi(), Pod: 0, Count: s.before, CPU: 50, Mem: 100}, nil))
@@ -96,7 +104,7 @@ func TestC30(t *testing.T) {
 			o.RPCSendFailFrom = []int{0, 1, 2, 4}[r.Rng.Intn(4)]
 			r.Count("rpc")
 		}
-		run(scen{op: o, fault: f, before: r.Rng.Intn(3)}, "")
+		run(scen{op: o, fault: f, before: r.Rng.Intn(3), strict: r.Rng.Intn(2) == 0}, "")
 	}
 	r.Finish("run-and-wait calls (count 1-3, stdin on/off, scripted logs/attach/wait outcomes, exit code 0 or 7) on 2 pods x 3 nodes of the real Calcium with an optional single injected fault; corpus of fixed scenarios first; non-trivial = a fault was hit or the call returned an error")
 }
